@@ -8,7 +8,8 @@
    FmtStr.width_aware_slice; and -- with chained comparisons, keyword arguments, isinstance
    against the module's own classes, a filtered generator expression consumed by `*`, method
    calls and `+` dispatched to the methods of a user class, assert with a message expression --
-   FmtStr.splice, append, setslice_with_length, setitem, __add__, __radd__).  There is no `while`: every loop is a `for` over a value that
+   FmtStr.splice, append, setslice_with_length, setitem, __add__, __radd__; and -- with range(n) as an
+   iterable and sum(iterable, start) -- FmtStr.__mul__).  There is no `while`: every loop is a `for` over a value that
    is already a finite list, i.e. structural recursion; the interpreter is total without fuel.
 
    The translator gen/gen_pure.py dumps the Python AST of those functions, node by
@@ -74,7 +75,8 @@ Inductive val :=
 | VObj (tag : string) (id : N)                   (* an object of which only the identity is known *)
 | VGen (items : list (res val))                  (* generator object: the outcomes of its elements, in order *)
 | VTuple (l : list val)
-| VRec (cls : string) (fields : list (string * val)).   (* an object: class name, instance attributes *)
+| VRec (cls : string) (fields : list (string * val))    (* an object: class name, instance attributes *)
+| VRange (n : Z).                                 (* range(n): ONLY its iteration 0 .. n-1 is modelled (see [iter_items]) *)
 
 Inductive binop := BAdd | BSub | BMul | BBitAnd | BBitOr | BMod.
 Inductive cmpop := CLt | CLtE | CGt | CGtE | CEq | CNotEq | CIs | CIsNot | CIn | CNotIn.
@@ -201,12 +203,13 @@ Definition truthy (v : val) : bool :=
   | VSlice _ _ _ | VEnumClass _ _ | VEnum _ _ | VModule _ | VObj _ _ | VGen _ => true
   | VTuple l => negb (is_nil l)
   | VRec _ _ => true          (* NOT Python's answer when the class defines __len__ / __bool__: see [testable] *)
+  | VRange _ => true          (* NOT Python's answer (len(range(n)) != 0): see [testable] *)
   end.
 
 (* the truth value of an object of a user class depends on its __bool__ / __len__: every truth
    test (if, conditional expression, not, and, or, assert, bool(), all / any) refuses such a
-   value instead of guessing *)
-Definition testable (v : val) : bool := match v with VRec _ _ => false | _ => true end.
+   value instead of guessing; the truth value of a range object is not modelled either *)
+Definition testable (v : val) : bool := match v with VRec _ _ | VRange _ => false | _ => true end.
 
 (* structural equality of values.  It is Python's == on the scalar values (int/bool, None,
    bytes, str, slice, enum members, opaque objects) and on lists of them; it is NOT ==
@@ -240,11 +243,11 @@ Fixpoint val_eqb (a b : val) : bool :=
       end
   end.
 
-(* values on which == is the structural equality above: not dicts, sets, generators, and not
-   objects of user classes (their == is the class's __eq__), at any depth *)
+(* values on which == is the structural equality above: not dicts, sets, generators, range
+   objects, and not objects of user classes (their == is the class's __eq__), at any depth *)
 Fixpoint comparable (v : val) : bool :=
   match v with
-  | VDict _ | VSet _ | VGen _ | VModule _ | VEnumClass _ _ | VRec _ _ => false
+  | VDict _ | VSet _ | VGen _ | VModule _ | VEnumClass _ _ | VRec _ _ | VRange _ => false
   | VList l | VTuple l => forallb comparable l
   | VSlice a b s => comparable a && comparable b && comparable s
   | _ => true
@@ -254,7 +257,7 @@ Definition hashable (v : val) : bool :=
   match v with
   | VList _ | VDict _ | VSet _ => false
   | VGen _ | VModule _ | VEnumClass _ _ => false      (* hashable in Python, by identity: not modelled *)
-  | VTuple _ | VRec _ _ => false                      (* by their elements / by __hash__: not modelled *)
+  | VTuple _ | VRec _ _ | VRange _ => false           (* by their elements / by __hash__: not modelled *)
   | _ => true
   end.
 
@@ -427,10 +430,12 @@ Definition bound_of (v : val) : res (option Z) :=
   end.
 
 (* iteration: the outcomes of the successive elements.  Lists, tuples, bytes (ints), str
-   (one-character strs); a generator is consumed as it is; dict / set iteration is not modelled *)
+   (one-character strs), range(n) (the ints 0 .. n-1; none for n <= 0); a generator is consumed
+   as it is; dict / set iteration is not modelled *)
 Definition iter_items (v : val) : res (list (res val)) :=
   match v with
   | VGen l => Ok l
+  | VRange n => Ok (map (fun k => Ok (VInt (Z.of_nat k))) (seq 0 (Z.to_nat n)))
   | VList l | VTuple l => Ok (map Ok l)
   | VBytes l => Ok (map (fun b => Ok (VInt (Z.of_N b))) l)
   | VStr l => Ok (map (fun ch => Ok (VStr [ch])) l)
@@ -534,6 +539,8 @@ Definition call1 (f : string) (a : val) : res val :=
     match iter_items a with Ok l => all_items l | Raise e => Raise e end
   else if String.eqb f "any" then
     match iter_items a with Ok l => any_items l | Raise e => Raise e end
+  else if String.eqb f "range" then                       (* range(n); range(a, b[, step]) is not modelled *)
+    match as_int a with Some n => Ok (VRange n) | None => if rich a then Raise OtherError else Raise TypeError end
   else Raise OtherError.
 
 Definition call2 (f : string) (a b : val) : res val :=
@@ -657,6 +664,26 @@ Definition bin_in (c : ctx) (op : binop) (a b : val) : res val :=
   | _, _, _ => eval_bin op a b
   end.
 
+(* sum(iterable, start): start must not be a str / bytes (TypeError: "sum() can't sum strings"); the
+   result is start, replaced by result + item for every element in turn -- the binary +, with its
+   dispatch to the __add__ / __radd__ of a user class ([bin_in]); an element that raises, raises
+   when it is reached.  (sum(iterable), with start = 0, is not modelled.) *)
+Fixpoint sum_items (c : ctx) (items : list (res val)) (acc : val) : res val :=
+  match items with
+  | [] => Ok acc
+  | Ok v :: items' => match bin_in c BAdd acc v with Ok acc' => sum_items c items' acc' | Raise e => Raise e end
+  | Raise e :: _ => Raise e
+  end.
+
+Definition sum_in (c : ctx) (it start : val) : res val :=
+  match iter_items it with
+  | Raise e => Raise e
+  | Ok items => match start with
+                | VStr _ | VBytes _ => Raise TypeError
+                | _ => sum_items c items start
+                end
+  end.
+
 (* method calls: join is language-level behaviour of bytes / str; the rest is the context's *)
 Definition method1 (c : ctx) (obj : val) (name : string) (arg : val) : res val :=
   match obj with
@@ -721,6 +748,7 @@ Definition apply_fun (c : ctx) (r : env) (f : string) (args : list val) : res va
       | None =>
           match args with
           | [VRec _ _ as a] => if String.eqb f "len" then len_of_object c a else builtin f args
+          | [it; start] => if String.eqb f "sum" then sum_in c it start else builtin f args
           | _ => builtin f args
           end
       end
